@@ -47,6 +47,9 @@ pub struct Session {
     pub pays_seen: Vec<Value>,
     pub rpc_log: Vec<String>,
     pub held: Vec<UnixStream>,
+    /// waitsendpay calls that lightningd answers late, on demand (stream, request id, part index)
+    pub late: Vec<(UnixStream, Value, usize)>,
+    pub first_wait: Option<(UnixStream, Value, usize)>,
     pub rng: Rng,
     pub started: Instant,
     /// crash injection: SIGKILL the plugin right after applying the effect of the k-th
@@ -201,6 +204,8 @@ impl Session {
             pays_seen: vec![],
             rpc_log: vec![],
             held: vec![],
+            late: vec![],
+            first_wait: None,
             rng: Rng::new(n + 1),
             started: Instant::now(),
             kill_at_rpc: None,
@@ -334,6 +339,9 @@ impl Session {
                 self.pays_seen.push(params.clone());
                 let pid = self.node.start_pay(0, &params, &hx);
                 self.node.add_part(pid, 1000);
+                if at == "two-parts" {
+                    self.node.add_part(pid, 1000);
+                }
                 if at == "pay" {
                     // the pay command never returns
                     self.held.push(stream);
@@ -399,6 +407,35 @@ impl Session {
             "waitsendpay" => match self.node.find_part(&params) {
                 None => write_rpc(stream, &id, Err(RpcErr::new(208, "never attempted"))),
                 Some(k) => {
+                    if self.node.waitsendpay_result(k).is_none() && self.stuck.iter().any(|(h, at)| *h == self.node.parts[k].hash_hex && *at == "two-parts") {
+                        // the first part of the hash settles at once; the other one is answered
+                        // late, when the test says so (answer_late)
+                        let hx = self.node.parts[k].hash_hex.clone();
+                        let first = self.node.parts.iter().position(|p| p.hash_hex == hx) == Some(k);
+                        if first {
+                            if self.late.iter().all(|(_, _, k2)| self.node.parts[*k2].hash_hex != hx) {
+                                // wait for the other part's waitsendpay to be on the wire first
+                                self.first_wait = Some((stream, id.clone(), k));
+                                return;
+                            }
+                            if let Some(pre) = self.preimages.get(&hx).copied() {
+                                self.node.parts[k].status = PartStatus::Complete;
+                                self.node.parts[k].preimage = Some(pre);
+                            }
+                        } else {
+                            self.late.push((stream, id.clone(), k));
+                            if let Some((st1, id1, k1)) = self.first_wait.take() {
+                                if let Some(pre) = self.preimages.get(&hx).copied() {
+                                    self.node.parts[k1].status = PartStatus::Complete;
+                                    self.node.parts[k1].preimage = Some(pre);
+                                }
+                                if let Some(r) = self.node.waitsendpay_result(k1) {
+                                    write_rpc(st1, &id1, r);
+                                }
+                            }
+                            return;
+                        }
+                    }
                     if self.node.waitsendpay_result(k).is_none() && self.stuck.iter().any(|(h, at)| *h == self.node.parts[k].hash_hex && *at == "pay-drop") {
                         let hx = self.node.parts[k].hash_hex.clone();
                         if let Some(pre) = self.preimages.get(&hx).copied() {
@@ -463,6 +500,23 @@ impl Session {
             }
             _ => write_rpc(stream, &id, Err(RpcErr::new(-32601, "Unknown command"))),
         }
+    }
+
+    /// lightningd answers the waitsendpay calls it kept waiting: their parts complete now.
+    pub fn answer_late(&mut self) -> usize {
+        let late = std::mem::take(&mut self.late);
+        let n = late.len();
+        for (stream, id, k) in late {
+            let hx = self.node.parts[k].hash_hex.clone();
+            if let Some(pre) = self.preimages.get(&hx).copied() {
+                self.node.parts[k].status = PartStatus::Complete;
+                self.node.parts[k].preimage = Some(pre);
+            }
+            if let Some(r) = self.node.waitsendpay_result(k) {
+                write_rpc(stream, &id, r);
+            }
+        }
+        n
     }
 
     /// Process events until `done` holds or the timeout expires. Returns whether `done` holds.
@@ -720,6 +774,7 @@ pub fn wire_sessions(bin: &str, seed: u64, sessions: u64) -> Result<E2eResult, S
                 let mut s = s;
                 let n = 1 + rng.below(48);
                 let chunking = *rng.pick(&[0u64, 1, 3, 17, 200, 5000]);
+                let bad_notifs = i % 3 == 0;
                 // build all requests into one byte stream so several can share a write
                 let mut bytes = vec![];
                 let mut ids = vec![];
@@ -727,7 +782,13 @@ pub fn wire_sessions(bin: &str, seed: u64, sessions: u64) -> Result<E2eResult, S
                     let id = format!("w{k}-é");
                     let pad = if rng.chance(1, 3) { "漢字😀".repeat(rng.below(30) as usize) } else { "00".into() };
                     let doc = if rng.chance(1, 6) {
-                        json!({"jsonrpc": "2.0", "method": "block_added", "params": {"block_added": {"hash": "00", "height": 100 + k}}})
+                        if bad_notifs && rng.chance(1, 2) {
+                            // a notification its handler cannot deserialize (the shape older nodes
+                            // send): the handler fails, no request may suffer
+                            json!({"jsonrpc": "2.0", "method": "block_added", "params": {"block": {"hash": "00", "height": 100 + k}}})
+                        } else {
+                            json!({"jsonrpc": "2.0", "method": "block_added", "params": {"block_added": {"hash": "00", "height": 100 + k}}})
+                        }
                     } else {
                         ids.push(id.clone());
                         json!({"jsonrpc": "2.0", "id": id, "method": "htlc_accepted", "params": forward_request(k, &pad)})
@@ -776,7 +837,9 @@ pub fn wire_sessions(bin: &str, seed: u64, sessions: u64) -> Result<E2eResult, S
                 *total_calls.lock().unwrap() += ids.len() as u64;
                 *total_logs.lock().unwrap() += s.docs.iter().filter(|d| d.1.get("method").and_then(|m| m.as_str()) == Some("log")).count() as u64;
                 let fin = s.finish();
-                if fin.stderr.contains("panicked") {
+                // (a failing notification handler is unwrapped in its own detached task: that panic
+                // message is expected in sessions that send such notifications)
+                if fin.stderr.contains("panicked") && !bad_notifs {
                     v("R17b|e2e-panic", fin.stderr.chars().take(300).collect());
                 }
             });
